@@ -482,10 +482,14 @@ def check_record_conversions(run, fx):
             elif not variants:
                 run.bad(rule, key, "conversion builds neither a record nor a variant: %s" % show(out)[:160], f.loc)
             else:
-                ok = _precision_shape(out) if src.endswith("ffi::Precision") else True
-                run.check(ok, rule, key, "record->enum: all %d source fields consulted, variants %s" %
-                          (len(sfields), variants), "is_minute must select Precision::Minute and the digit payload "
-                          "must come from `precision`: %s" % show(out)[:200], f.loc)
+                ok = _precision_table(fx, f, src) if src.endswith("ffi::Precision") else True
+                if ok is None:
+                    run.ok(rule, key, "the conversion does not fold over (is_minute, precision): not decided", f.loc,
+                           nontrivial=False)
+                else:
+                    run.check(ok is True, rule, key, "record->enum: all %d source fields consulted, variants %s" %
+                              (len(sfields), variants), "is_minute must select Precision::Minute and the digit payload "
+                              "must come from `precision`: %s" % (ok if ok is not True else ""), f.loc)
             continue
         used = set()
         wrong = []
@@ -525,6 +529,37 @@ def check_record_conversions(run, fx):
 
 def _alias(target, source):
     return False
+
+
+def _precision_table(fx, f, src):
+    """the conversion folded over its finite domain: is_minute x (precision absent / present).  True, None (does not fold),
+    or a description of the wrong cell"""
+    d = H.Sym("param", ("digit",))
+    for is_min in (True, False):
+        for prec in (H.V(H.NONE, ()), H.V(H.SOME, (d,))):
+            ev = H.Evaluator(fx)
+            ev.inline = lambda p: False
+            ev.stubs["into_option"] = lambda args: args[0] if isinstance(args[0], H.V) else NotImplemented
+            ev.stubs["convert::Into::into"] = lambda args: args[0] if isinstance(args[0], H.V) and args[0].path in (H.SOME, H.NONE) \
+                else NotImplemented
+            rec = H.S(src, (("is_minute", is_min), ("precision", prec)))
+            try:
+                out = ev.call_fn(f, [rec])
+            except (H.Panic, H.Budget):
+                return None
+            if not isinstance(out, H.V):
+                return None
+            name = out.path.rsplit("::", 1)[-1]
+            want = "Minute" if is_min else ("Digit" if prec.path == H.SOME else "Auto")
+            if name != want:
+                return "is_minute=%s, precision %s -> %s (expected %s)" % (is_min, "present" if prec.path == H.SOME else "absent", name, want)
+            if want == "Digit":
+                core, _ = strip(out.args[0]) if out.args else (None, None)
+                if core != d:
+                    if H.has_sym(out.args[0]) and d in list(walk(out.args[0])):
+                        continue
+                    return "the digit payload is %s, not the record's precision" % show(out.args[0] if out.args else None)[:60]
+    return True
 
 
 def _precision_shape(out):
